@@ -43,6 +43,13 @@ if HOSTILE:
     import decimal as _decimal
 
     _decimal.getcontext().prec = 6
+    # ... and that prints numpy arrays its own way
+    try:
+        import numpy as _numpy
+
+        _numpy.set_printoptions(formatter={"int": hex}, linewidth=20, sign="+", threshold=5)
+    except Exception:  # noqa: BLE001
+        pass
 else:
     logging.disable(logging.CRITICAL)
 
